@@ -56,12 +56,15 @@ range, no assert / unwrap / unreachable arm is reached, and the pass budget of t
 exhausted — and the solver object it returns satisfies `SolverInvQ` again. -/
 theorem solve_ok_qdldl (hf : FmaxOK α) {S : Solver α} (st : Settings α) (h : SolverInvQ S) :
     ∃ r, S.solve st = .ok r ∧ SolverInvQ r.S := by
-  obtain ⟨r, hr, hI⟩ := solve_ok (stagesQdldl hf S.st.data (S.st.cones.map ConeSt.kktSpec) st) h
+  obtain ⟨r, hr, ⟨nq, nb, hd⟩, _, hI⟩ :=
+    solve_ok (stagesQdldl hf S.st.data (S.st.cones.map ConeSt.kktSpec) st) h
   refine ⟨r, hr, ?_⟩
-  have e1 : r.S.st.data = S.st.data := hI.st.data
+  -- the data of the returned object: the data at entry with the two norm caches filled
+  have en : r.S.st.data.n = S.st.data.n := by rw [hd]
+  have em : r.S.st.data.m = S.st.data.m := by rw [hd]
   have e2 : r.S.st.cones.map ConeSt.kktSpec = S.st.cones.map ConeSt.kktSpec := hI.st.specs
   unfold SolverInvQ
-  rw [e1, e2]
+  rw [en, em, e2]
   exact hI
 
 theorem solve_noPanic_qdldl (hf : FmaxOK α) {S : Solver α} (st : Settings α) (h : SolverInvQ S) :
